@@ -932,6 +932,12 @@ func init() {
 		if m.closed || m.closeW {
 			return Tuple{e.mkInt(0), e.mkError("use of closed network connection")}
 		}
+		if e.cfg.Bounds["tcp_write_yield"] != 0 {
+			// each write call is one atomic step on the wire; another writer of the same
+			// connection may get in between two calls
+			e.explicitYield = true
+			e.Yield()
+		}
 		r, _ := e.callMethod(fr, m.out, "Write", a[1])
 		return r
 	}
@@ -956,6 +962,18 @@ func init() {
 		bufs := p.B.E[p.I].(Slice)
 		w := a[1].(Iface)
 		total := e.tb.Const(64, 0)
+		if wp, isPtr := w.V.(Ptr); isPtr && e.cfg.Bounds["tcp_write_yield"] != 0 && wp.B != nil {
+			if sb, ok := wp.B.E[wp.I].(*Backing); ok && e.tcpConns[sb] != nil {
+				// writev on a TCP connection: all buffers leave as one atomic step
+				m := e.tcpConns[sb]
+				e.explicitYield = true
+				e.Yield()
+				if m.closed || m.closeW {
+					return Tuple{total, e.mkError("use of closed network connection")}
+				}
+				w = m.out
+			}
+		}
 		for i := 0; i < bufs.Len; i++ {
 			b := bufs.B.E[bufs.Off+i].(Slice)
 			if b.Len == 0 {
